@@ -181,6 +181,18 @@ func intOK(c *IntC, v int64) bool {
 	return true
 }
 
+// asciiLower: the strings of the worlds and constraints are ASCII; case-insensitive comparison is
+// comparison of the lower-cased strings.
+func asciiLower(s string) string {
+	b := []byte(s)
+	for i, c := range b {
+		if c >= 'A' && c <= 'Z' {
+			b[i] = c + 32
+		}
+	}
+	return string(b)
+}
+
 func strOK(c *StrC, s string) bool {
 	if c.Empty && s != "" {
 		return false
@@ -188,16 +200,20 @@ func strOK(c *StrC, s string) bool {
 	if c.ByteLen != nil && !intOK(c.ByteLen, int64(len(s))) {
 		return false
 	}
-	if c.Equals != "" && s != c.Equals {
+	eq, ct, hp, hs := c.Equals, c.Contains, c.HasPrefix, c.HasSuffix
+	if c.CaseInsensitive {
+		s, eq, ct, hp, hs = asciiLower(s), asciiLower(eq), asciiLower(ct), asciiLower(hp), asciiLower(hs)
+	}
+	if c.Equals != "" && s != eq {
 		return false
 	}
-	if c.Contains != "" && !strings.Contains(s, c.Contains) {
+	if c.Contains != "" && !strings.Contains(s, ct) {
 		return false
 	}
-	if c.HasPrefix != "" && !strings.HasPrefix(s, c.HasPrefix) {
+	if c.HasPrefix != "" && !strings.HasPrefix(s, hp) {
 		return false
 	}
-	if c.HasSuffix != "" && !strings.HasSuffix(s, c.HasSuffix) {
+	if c.HasSuffix != "" && !strings.HasSuffix(s, hs) {
 		return false
 	}
 	return true
